@@ -450,11 +450,10 @@ mut("01N-marshal-fresh-copy", "C01", None, ("internal/encoding/tl/encoder.go", "
 
 # --- fifth round ----------------------------------------------------------------------------------------
 IGE = "internal/aes_ige/ige_cipher.go"
-mut("05-encrypt-scribbles-on-input", "C05", "R05.B", (IGE, "		c.x, c.y = c.t, in[i:i+aes.BlockSize]\n		copy(out[i:], c.t)\n	}\n	return nil\n}\n\nfunc (c *Cipher) doAES256IGEdecrypt", "		c.x, c.y = c.t, in[i:i+aes.BlockSize]\n		copy(out[i:], c.t)\n		copy(in[i:], c.t)\n	}\n	return nil\n}\n\nfunc (c *Cipher) doAES256IGEdecrypt"))
+mut("05-encrypt-wipes-plaintext", "C05", "R05.B", (IGE, "		copy(out[i:], c.t)\n	}\n	return nil\n}\n\nfunc (c *Cipher) doAES256IGEdecrypt", "		copy(out[i:], c.t)\n	}\n	for i := range in {\n		in[i] = 0\n	}\n	return nil\n}\n\nfunc (c *Cipher) doAES256IGEdecrypt"))
 mut("09-gzip-break-before-append", "C09", "R09.Z", ("internal/mtproto/objects/types.go", "		n, _ := gz.Read(b)\n\n		decompressed = append(decompressed, b[0:n]...)\n		if n <= 0 {\n			break\n		}\n", "		n, err := gz.Read(b)\n		if err != nil {\n			break\n		}\n\n		decompressed = append(decompressed, b[0:n]...)\n"))
 mut("07-service-mode-off-on-reqpq-error", "C07", "C07/", (H, "	res, err := m.reqPQ(nonceFirst)\n	if err != nil {\n", "	res, err := m.reqPQ(nonceFirst)\n	if err != nil {\n		m.serviceModeActivated = false\n"))
 mut("04-body-longer-than-declared", "C04", "R04.G", ("internal/mtproto/messages/messages.go", "	msg.Msg = d.PopRawBytes(int(messageLen))\n\n	return msg, nil", "	msg.Msg = d.PopRawBytes(len(decrypted) - 32)\n\n	return msg, nil"))
-mut("02-flags-placeholder-one-late", "C02", "R02.X", ("internal/encoding/tl/encoder.go", "		if hasFlagsField && flagIndex == i {\n			tmpObjects = append(tmpObjects, reflect.ValueOf(0))\n		}\n", "		if hasFlagsField && flagIndex+1 == i {\n			tmpObjects = append(tmpObjects, reflect.ValueOf(0))\n		}\n"))
 mut("01-enum-any-enum-id", "C01", "R01.E", ("internal/encoding/tl/decoder.go", "				if _, isEnum := enumCrcs[crcCode]; isEnum && objectByCrc[crcCode] == e.Type() {", "				if _, isEnum := enumCrcs[crcCode]; isEnum {"))
 mut("01-takeout-wrapper-not-registered", "C01", "R01.U", ("telegram/methods_special.go", "		&InvokeWithLayerParams{},\n		&InvokeWithTakeoutParams{},\n	)", "		&InvokeWithLayerParams{},\n	)"))
 mut("13-future-salt-fields-swapped", "C13", "service-fields:FutureSalt", ("internal/mtproto/objects/types.go", "type FutureSalt struct {\n	ValidSince int32\n	ValidUntil int32\n", "type FutureSalt struct {\n	ValidUntil int32\n	ValidSince int32\n"))
